@@ -160,6 +160,13 @@ def directed_cases():
         for shape, elems in shapes.items():
             out.append((f"{opname}:res_attrs:{shape}", _func_like(opname, 1, 3, None, "[" + ", ".join(elems) + "]", ret, tys)))
             out.append((f"{opname}:arg_attrs:{shape}", _func_like(opname, 3, 1, "[" + ", ".join(elems) + "]", None, ret, tys)))
+    out.append(("dense-array:negative-elements",
+                '"builtin.module"() ({\n  %a, %b, %c = "test.op"() : () -> (vector<2xf32>, vector<2xf32>, vector<4xi32>)\n'
+                '  %0 = "vector.shuffle"(%a, %b) <{mask = array<i64: 0, 3>}> : (vector<2xf32>, vector<2xf32>) -> vector<2xf32>\n'
+                '  %1 = "vector.shuffle"(%a, %b) <{mask = array<i64: 1, -1, 2>}> : (vector<2xf32>, vector<2xf32>) -> vector<3xf32>\n'
+                '  %2 = "llvm.shufflevector"(%c, %c) <{mask = array<i32: 0, 5>}> : (vector<4xi32>, vector<4xi32>) -> vector<2xi32>\n'
+                '  %3 = "llvm.shufflevector"(%c, %c) <{mask = array<i32: -1, 7, -1, 0>}> : (vector<4xi32>, vector<4xi32>) -> vector<4xi32>\n'
+                '}) : () -> ()'))
     for name, (dc, cc) in {"uniform-1": (1, [1, 1, 1]), "uniform-2": (0, [2, 2]), "1-2": (0, [1, 2]), "0-2": (1, [0, 2]),
                            "2-0-1": (1, [2, 0, 1]), "1-2-1": (0, [1, 2, 1]), "default-only": (1, [])}.items():
         out.append((f"cf.switch:{name}", _switch(dc, cc)))
@@ -184,7 +191,7 @@ def plan(tier, seed):
 def work(job):
     from xv import corpus
     from xv.c04_rt import all_diff_op_names, op_text, roundtrip, selective_printer
-    from xv.c05_gen import MUTATIONS, Pool, has_custom_format, is_declarative, mutate_op, op_signature, op_verifies
+    from xv.c05_gen import MUTATIONS, Pool, dense_negative, has_custom_format, is_declarative, mutate_op, op_signature, op_verifies
     from xv.worker import journal
 
     res = {"evaluations": 0, "nontrivial": [], "samples": [], "counters": {}, "sets": {}, "violations": [], "extra": {}}
@@ -383,6 +390,21 @@ def work(job):
             evaluate(m, ctx, f"directed:{name}", "directed", {"kind": "directed", "only": name}, g)
             if name == "cf.switch:1-2-1":
                 res["samples"].append({"directed_case": name, "generic_ir": text})
+        if not job.get("only") or job["only"] == "xvfmt:else-groups":
+            # harness-defined declarative-format ops with ELSE groups (no registered op has one), both branches taken
+            from xv import c04_rt
+            from xv.c05_gen import format_test_module
+            dialect, m = format_test_module()
+            m.verify()
+            ctx = corpus.new_ctx()
+            ctx.load_dialect(dialect)
+            c04_rt.EXTRA_DIALECTS.append(dialect)
+            try:
+                bump("directed_cases")
+                g = roundtrip(m, ctx, True, check_clone=False, check_text=False)
+                evaluate(m, ctx, "directed:xvfmt:else-groups", "directed", {"kind": "directed", "only": "xvfmt:else-groups"}, g)
+            finally:
+                c04_rt.EXTRA_DIALECTS.remove(dialect)
         res["nontrivial"] = sorted(nt)
         res["sets"] = {k: sorted(v) for k, v in sets.items()}
         return res
@@ -501,6 +523,29 @@ def work(job):
             for a in reversed(applied):
                 if not getattr(a, "undone", False):
                     a.undo()
+        # --- fixed addition (every tier): one element of each signless dense-array property of a declarative-format op
+        #     becomes -1 where the verifier allows it
+        if not skip and only_state in (None, "mutant:dense-neg"):
+            applied = [a for a in (dense_negative(op) for op in list(m.walk()) if op.parent is not None) if a is not None]
+            while applied and not op_verifies(m, nested=True):
+                half = applied[len(applied) // 2:]
+                for a in reversed(half):
+                    a.undo()
+                applied = applied[:len(applied) // 2]
+            if applied:
+                for a in applied:
+                    bump("mutations_applied:dense_negative")
+                    sets.setdefault("ops_mutated:dense_negative", set()).add(a.op_name)
+                current_mutations.clear()
+                for a in applied:
+                    current_mutations.setdefault(a.op_name, []).append(f"{a.kind}:{a.target}")
+                current_applied[:] = applied
+                evaluate(m, ctx, case_id, "mutant:dense-neg", rj, None)
+                current_mutations.clear()
+                current_applied[:] = []
+                for a in reversed(applied):
+                    if not getattr(a, "undone", False):
+                        a.undo()
         if not job["rounds"]:
             for op in m.walk():
                 if has_custom_format(op) and op.parent is not None:
